@@ -69,6 +69,10 @@ def run_bounded(mod, prop, tier, seed, replay=None, sanitize=False):
                 "wall_s": time.time() - t0}
     rep = json.load(open(out))
     rep["wall_s"] = round(time.time() - t0, 2)
+    if r.returncode not in (0, 1) or (not replay and not rep.get("evaluations")):
+        # a harness that died (traceback, signal) or evaluated nothing decided nothing: never "held"
+        return {"error": f"bounded harness broke (exit {r.returncode}, {rep.get('evaluations')} evaluations): "
+                         f"{r.stderr[-1200:]}", "wall_s": rep["wall_s"]}
     return rep
 
 
